@@ -56,7 +56,7 @@ try:
         res["valid"] = ok
         res["false_alarm"] = len(viol) > 0
     if keep and ok:
-        dst = os.path.join("/verif/seeded", name); os.makedirs(dst, exist_ok=True)
+        dst = os.path.join("/verif/seeded" if kind == "breaking" else "/verif/benign", name); os.makedirs(dst, exist_ok=True)
         open(os.path.join(dst, "patch.diff"), "w").write(patch)
         for f in os.listdir(src):
             if f.endswith("_test.go"):
